@@ -79,6 +79,14 @@ def ia_fields(z):
     return IA.event1(z), IA.event2(z), IA.event3(z)
 
 
+def ia_eq(a, b):
+    """IndependenceAssertion.__eq__: same three sets, or the first two swapped"""
+    a1, a2, a3 = ia_fields(a)
+    b1, b2, b3 = ia_fields(b)
+    return z3.Or(z3.And(seteq(a1, b1, Atom), seteq(a2, b2, Atom), seteq(a3, b3, Atom)),
+                 z3.And(seteq(a1, b2, Atom), seteq(a2, b1, Atom), seteq(a3, b3, Atom)))
+
+
 # dynamic-network nodes: DynamicNode(name, time_slice) is an injective pairing on names
 DN = z3.Function("DynamicNode", Atom, I, Atom)
 dn_name = z3.Function("dn_name", Atom, Atom)
@@ -295,6 +303,17 @@ class Lib:
                 return z3.ForAll([x, y], a.E[x, y] == b.E[x, y])
             if a.directed and b.directed:
                 return z3.ForAll([x, y], a.E[x, y] == b.E[x, y])
+        return None
+
+    def coll_contains(self, ex, c, item, st):
+        """`x in seq` compares with __eq__: for IndependenceAssertion elements that is equality up to swapping the two event sets
+        (the proved contract of IndependenceAssertion.__eq__)"""
+        if c.esort == IA and c.kind in ("list", "tuple", "iter"):
+            iz = z3_of(item)
+            if iz.sort() != IA:
+                return z3.BoolVal(False)
+            e = fresh("e", IA)
+            return z3.Exists([e], z3.And(c.mem[e], ia_eq(e, iz)))
         return None
 
     def obj_contains(self, ex, o, item, st):
